@@ -99,9 +99,13 @@ func (s *state) walk(node ast.Node) {
 	case *ast.HeaderParamNode:
 		// TODO: Validate param types.
 	case *ast.ListNode:
+		// a list is the body of a block: what a {let} binds inside it must not
+		// outlive it (nor keep shadowing an outer variable of the same name).
+		s.context.push()
 		for _, node := range node.Nodes {
 			s.walk(node)
 		}
+		s.context.pop()
 
 		// Output nodes ----------
 	case *ast.PrintNode:
